@@ -56,7 +56,7 @@ def family_soft_struct(tier, seed, n=None):
 
         def atom():
             return rel_atom(rnd, names, lits=(0, 1, 2, 3))
-        kind = rnd.choice(["pair", "triple", "guard_if", "guard_imp", "joint", "two_blocks", "sub"])
+        kind = ["pair", "triple", "guard_if", "guard_imp", "joint", "two_blocks", "sub", "guard_deep", "dyn_soft", "soft_vs_in"][t % 10]
         blocks_extra = []
         body = [E(atom())]
         if kind == "pair":
@@ -77,10 +77,47 @@ def family_soft_struct(tier, seed, n=None):
         elif kind == "two_blocks":
             body += [SOFT(B("eq", F("a"), lit(1)))]
             blocks_extra = [{"name": "c2", "dynamic": False, "body": [SOFT(B("eq", F("a"), lit(2))), SOFT(atom())]}]
+        elif kind == "guard_deep":
+            # a soft three condition levels deep (if / implies / if over non-random guards) stated after an unguarded one:
+            # it wins exactly when all three guards hold
+            fields += [fld("g1", 1, False, rand=False), fld("g2", 1, False, rand=False), fld("g3", 1, False, rand=False)]
+            v1, v2 = rnd.sample(range(4), 2)
+            body = [E(B("le", F("b"), lit(3))), SOFT(B("eq", F("a"), lit(v1))),
+                    {"k": "if", "arms": [{"c": B("eq", F("g1"), lit(1)), "body": [
+                        {"k": "imp", "c": B("eq", F("g2"), lit(1)), "body": [
+                            {"k": "if", "arms": [{"c": B("eq", F("g3"), lit(1)), "body": [SOFT(B("eq", F("a"), lit(v2)))]}], "els": []}]}]}],
+                     "els": []}]
+        elif kind == "dyn_soft":
+            # a dynamic block that contains a soft constraint, referenced inside the with block before a conflicting inline soft
+            blocks_extra = [{"name": "ds", "dynamic": True, "body": [SOFT(B("eq", F("a"), lit(1)))]}]
+            body = [E(B("le", F("b"), lit(3)))]
+        elif kind == "soft_vs_in":
+            # a soft default that a hard inline membership excludes
+            body = [SOFT(B("eq", F("a"), lit(1))), E(B("lt", F("b"), F("a")))]
         else:
             body += [SOFT(atom()), SOFT(atom())]
         world = one_class_world(fields, body, extra_blocks=blocks_extra)
         ops = [{"op": "construct", "o": "o1"}]
+        if kind == "guard_deep":
+            for combo in range(8):
+                for j, g in enumerate(("g1", "g2", "g3")):
+                    ops.append({"op": "set", "p": "o1." + g, "v": bits((combo >> j) & 1, 1)})
+                ops.append({"op": "call", "call": mcall()})
+            out.append({"id": "soft/%s/%s/%d" % (kind, "core" if core else "s%d" % seed, t), "world": world, "ops": ops, "tags": []})
+            continue
+        if kind == "dyn_soft":
+            for rep in range(5):
+                ops.append({"op": "call", "call": wcall([E({"k": "dyn", "o": "", "b": "ds"}), SOFT(B("eq", F("a"), lit(2)))])})
+                if rep == 2:
+                    ops.append({"op": "call", "call": wcall([E({"k": "dyn", "o": "", "b": "ds"})])})
+            out.append({"id": "soft/%s/%s/%d" % (kind, "core" if core else "s%d" % seed, t), "world": world, "ops": ops, "tags": []})
+            continue
+        if kind == "soft_vs_in":
+            for rep in range(4):
+                ops.append({"op": "call", "call": mcall()})
+                ops.append({"op": "call", "call": wcall([E(IN(F("a"), rnd.sample([0, 2, 3], 2)))])})
+            out.append({"id": "soft/%s/%s/%d" % (kind, "core" if core else "s%d" % seed, t), "world": world, "ops": ops, "tags": []})
+            continue
         for rep in range(3):
             if not fields[2]["rand"]:
                 ops.append({"op": "set", "p": "o1.c", "v": bits(rnd.randrange(4), 2)})
